@@ -109,7 +109,7 @@ func concExec(c Sx) Sx {
 		}
 		select {
 		case threads[i].resume <- struct{}{}:
-		case <-time.After(2 * time.Second):
+		case <-time.After(30 * time.Second):
 			stuck = true
 			return
 		}
@@ -118,7 +118,7 @@ func concExec(c Sx) Sx {
 			if !parked {
 				done[i] = true
 			}
-		case <-time.After(2 * time.Second):
+		case <-time.After(30 * time.Second):
 			stuck = true
 		}
 	}
